@@ -136,5 +136,6 @@ Example tie_C20_hashes :
   /\ Src.h_pulse_sequence_PulseSequence_cache_total_phases = Expected.h_pulse_sequence_PulseSequence_cache_total_phases
   /\ Src.h_pulse_sequence_PulseSequence_propagator_at_arb_t = Expected.h_pulse_sequence_PulseSequence_propagator_at_arb_t
   /\ Src.h_basis_Basis_pauli = Expected.h_basis_Basis_pauli
-  /\ Src.h_basis_Basis_ggm = Expected.h_basis_Basis_ggm.
+  /\ Src.h_basis_Basis_ggm = Expected.h_basis_Basis_ggm
+  /\ Src.h_gradient_infidelity_derivative = Expected.h_gradient_infidelity_derivative.
 Proof. repeat split; reflexivity. Qed.
